@@ -222,7 +222,7 @@ property's quick check. What the other five led to:
   catches the consequence (valid tree, sampling panics).
 
 Further cells added from the reports before the preview: Gamma(k, inf) for
-small k (R4-C03-1), Binomial n = 2^50 … 2^63 with n·p ∈ {½, 2, 9.5}
+small k (R4-C03-1), Binomial n = 2^50 … 2^63 with n·p ∈ {{½, 2, 9.5}}
 (R4-C05-1).
 
 | id | change | needs | caught by | time incl. rebuild |
